@@ -61,6 +61,27 @@ fn get_doc_comment_for_parameter(parameter: &GrammarParameter) -> Option<DocComm
         })
 }
 
+/// Returns a [`DocComment`] describing the provided return member if one is present.
+///
+/// Like parameters, return members are documented through tags applied to their operation: '@returns' tags.
+/// A tag without an identifier documents the (single) unnamed return value, otherwise identifiers must match.
+fn get_doc_comment_for_return_member(return_member: &GrammarParameter) -> Option<DocComment> {
+    let operation = return_member.parent();
+    let operation_comment = operation.comment()?;
+    let is_single_return = operation.return_type.len() == 1;
+
+    operation_comment.returns.iter()
+        .find(|returns_tag| match &returns_tag.identifier {
+            Some(identifier) => identifier.value == return_member.identifier(),
+            None => is_single_return,
+        })
+        .map(|returns_tag| returns_tag.message.value.iter().map(Into::into).collect())
+        .map(|message| DocComment {
+            overview: message,
+            see_tags: Vec::new(),
+        })
+}
+
 /// Helper function to convert the result of `tag.linked_entity()` into an [`EntityId`].
 fn convert_doc_comment_link(link_result: Result<&dyn Entity, &GrammarIdentifier>) -> EntityId {
     match link_result {
@@ -260,7 +281,7 @@ impl SliceFileContentsConverter {
                 .parameters
                 .last()
                 .is_some_and(|parameter| parameter.borrow().is_streamed),
-            return_type: operation.return_members().into_iter().map(|e| self.convert_parameter(e)).collect(),
+            return_type: operation.return_members().into_iter().map(|e| self.convert_return_member(e)).collect(),
             has_streamed_return: operation
                 .return_type
                 .last()
@@ -269,10 +290,20 @@ impl SliceFileContentsConverter {
     }
 
     fn convert_parameter(&mut self, parameter: &GrammarParameter) -> Field {
+        let comment = get_doc_comment_for_parameter(parameter);
+        self.convert_operation_member(parameter, comment)
+    }
+
+    fn convert_return_member(&mut self, return_member: &GrammarParameter) -> Field {
+        let comment = get_doc_comment_for_return_member(return_member);
+        self.convert_operation_member(return_member, comment)
+    }
+
+    fn convert_operation_member(&mut self, parameter: &GrammarParameter, comment: Option<DocComment>) -> Field {
         let parameter_info = EntityInfo {
             identifier: parameter.identifier().to_owned(),
             attributes: get_attributes_from(parameter.attributes()),
-            comment: get_doc_comment_for_parameter(parameter),
+            comment,
         };
 
         Field {
